@@ -143,8 +143,8 @@ theorem step_callProc (ih : AllTri f) : ∀ t name args, Tri PT (callProc (f+1) 
       refine Run.get_bind ?_
       have main : Run (do
           let caller ← curAct
-          modifyAct caller.id fun a => { a with switchTok := some (t.line, t.col) }
           let slots ← bindParams f t pd.params args vals []
+          modifyAct caller.id fun a => { a with switchTok := some (t.line, t.col) }
           modify fun s => { s with depth := s.depth + 1 }
           withAct (fun id => { id := id, name := pd.name, vars := slots }) do
             tryCatch (runBlock f pd.body) fun e =>
@@ -155,9 +155,10 @@ theorem step_callProc (ih : AllTri f) : ∀ t name args, Tri PT (callProc (f+1) 
           modify fun s => { s with depth := s.depth - 1 }
           modifyAct caller.id fun a => { a with switchTok := none }) σ1 (ResE σ (QT σ) ErrOK) := by
         refine Run.ro hW1 hE01 (ro_curAct hW1) fun caller _ => ?_
-        refine Run.bind hE01 (run_setSwitchTok hW1 caller.id _) fun _ σ2 hW2 hE2 hE02 _ => ?_
-        refine Run.bind hE02 (ih.bindParams t pd.params args vals [] (by simp at hlen; omega) hl' σ2 hW2
-          ⟨hpd.1.ext hE02, hvals.ext hE2, fun s hs => by cases hs⟩) fun slots σ3 hW3 hE3 hE03 hsl => ?_
+        refine Run.bind hE01 (ih.bindParams t pd.params args vals [] (by simp at hlen; omega) hl' σ1 hW1
+          ⟨hpd.1.ext hE01, hvals, fun s hs => by cases hs⟩) fun slots σ2 hW2 hE2 hE02 hsl0 => ?_
+        refine Run.bind hE02 (run_setSwitchTok hW2 caller.id _) fun _ σ3 hW3 hE3 hE03 _ => ?_
+        have hsl := And.intro (hsl0.1.ext hE3) hsl0.2
         obtain ⟨hso, -⟩ := hsl
         refine Run.bind hE03 (run_modify_frame hW3 _ rfl rfl rfl rfl) fun _ σ4 hW4 hE4 hE04 _ => ?_
         refine Run.bind hE04 (Run.withAct (E := ErrOK) (Q := fun _ _ => True) (Qb := fun _ _ => True)
@@ -241,8 +242,8 @@ theorem step_callFun (ih : AllTri f) : ∀ t args, Tri PT (callFun (f+1) t args)
       refine Run.get_bind ?_
       have main : Run (do
           let caller ← curAct
-          modifyAct caller.id fun a => { a with switchTok := some (t.line, t.col) }
           let slots ← bindParams f t fd.params args vals []
+          modifyAct caller.id fun a => { a with switchTok := some (t.line, t.col) }
           modify fun s => { s with depth := s.depth + 1 }
           let r ← withAct (fun id => { id := id, name := fd.name, isFn := true, retTy := fd.ret, vars := slots }) do
             match fd.body with
@@ -268,9 +269,10 @@ theorem step_callFun (ih : AllTri f) : ∀ t args, Tri PT (callFun (f+1) t args)
           | some v => pure v
           | none => throw (.crash .other)) σ1 (ResE σ (QV σ) ErrOK) := by
         refine Run.ro hW1 hE01 (ro_curAct hW1) fun caller _ => ?_
-        refine Run.bind hE01 (run_setSwitchTok hW1 caller.id _) fun _ σ2 hW2 hE2 hE02 _ => ?_
-        refine Run.bind hE02 (ih.bindParams t fd.params args vals [] (by simp at hlen; omega) hl' σ2 hW2
-          ⟨hpok.ext hE02, hvals.ext hE2, fun s hs => by cases hs⟩) fun slots σ3 hW3 hE3 hE03 hsl => ?_
+        refine Run.bind hE01 (ih.bindParams t fd.params args vals [] (by simp at hlen; omega) hl' σ1 hW1
+          ⟨hpok.ext hE01, hvals, fun s hs => by cases hs⟩) fun slots σ2 hW2 hE2 hE02 hsl0 => ?_
+        refine Run.bind hE02 (run_setSwitchTok hW2 caller.id _) fun _ σ3 hW3 hE3 hE03 _ => ?_
+        have hsl := And.intro (hsl0.1.ext hE3) hsl0.2
         obtain ⟨hso, new, hnew, hcond⟩ := hsl
         have hnew' : slots = new := by simpa using hnew
         subst hnew'
